@@ -6,6 +6,7 @@ from ..facts import callee_name
 from .. import cfg as C
 from .. import callgraph as CG
 from ..fields import field_accesses, fields_read_deep
+from .. import vcai as V
 
 # public graph-building API: robustness against arbitrary arguments is decided by C09/C11
 API_STOP = {
@@ -139,7 +140,7 @@ def run(facts, rep, tier):
             nidx += 1
             ok, why = index_guarded(b, fl, bb, data, elem, guards)
             rep.ob("C12.I", key, ok, why, b.loc(bb), {"index_origins": [list(map(str, d)) for d in data], "element_type": elem})
-    rep.floor("C12.I", "data-derived index sites in the decoder layer", nidx, 12)
+    rep.floor("C12.I", "data-derived index sites in the decoder layer", nidx, 8)
     # ---------------- C12.F
     field_agreement(facts, rep)
 
@@ -154,9 +155,54 @@ def elem_type(container_ty):
     return container_ty
 
 
-def collect_guards(facts, b, fl):
+def try_switch_of_call(b, call_bb):
+    """(switch block, continue target, break target) of the `?` applied to the result of the call at call_bb"""
+    t = b.term(call_bb)
+    if len(t["dest"]) != 1 or t.get("t") is None:
+        return None
+    nxt = t["t"]
+    tn = b.term(nxt)
+    if tn["k"] != "call" or not (callee_name(tn) or "").endswith("::branch"):
+        return None
+    a = tn["args"][0]
+    if a[0] == "k" or a[1][0] != t["dest"][0]:
+        return None
+    sw = tn.get("t")
+    if sw is None or b.term(sw)["k"] != "switch":
+        return None
+    arms = dict(b.term(sw)["arms"])
+    return sw, arms.get("0", b.term(sw)["else"]), arms.get("1", b.term(sw)["else"])
+
+
+def collect_guards(facts, b, fl, depth=0):
     """comparisons `x OP len(container)`: list of dicts with the switch that tests them"""
     out = []
+    if depth == 0:
+        # validating helpers: `h(.., datum, ..)?` where h returns Err unless its parameter is in range
+        for bb, t in b.calls():
+            cn = callee_name(t)
+            hb = facts.bodies.get(cn)
+            if hb is None or b.is_cleanup(bb) or hb.crate != b.crate or hb.file != b.file or cn == b.id:
+                continue
+            ts = try_switch_of_call(b, bb)
+            if ts is None:
+                continue
+            from ..flow import Flow as _F
+            hfl = _F(facts, hb)
+            for g in collect_guards(facts, hb, hfl, depth + 1):
+                # the helper's out-of-range edge must end in an error exit of the helper
+                if not (C.reachable(hb, [g["oor"]]) & C.error_exit_blocks(hb)) or \
+                        (C.reachable(hb, [g["oor"]]) & C.ok_exit_blocks(hb)):
+                    continue
+                comp = set()
+                for o in g["idx"]:
+                    if o[0] == "param" and o[1] - 1 < len(t["args"]) and t["args"][o[1] - 1][0] != "k":
+                        for co in fl.origins(t["args"][o[1] - 1], (bb, None)):
+                            if co[0] == "param":
+                                comp.add(("param", co[1], tuple(co[2]) + tuple(o[2])))
+                if comp:
+                    out.append({"switch": ts[0], "idx": frozenset(comp), "elem": g["elem"], "recv": frozenset(),
+                                "oor": ts[2], "inr": ts[1], "via": cn})
     for bb in range(b.nblocks()):
         if b.term(bb)["k"] != "switch":
             continue
@@ -351,3 +397,72 @@ def field_agreement(facts, rep):
             if rep.anchor("C12.F", "graphs::serialize_hashmap", sh):
                 sorts = [callee_name(t) for _, t in sh.calls() if "sort" in (callee_name(t) or "")]
                 rep.ob("C12.F", "serialize_hashmap sorts", bool(sorts), "serialize_hashmap calls %s" % sorts, sh.loc())
+
+
+# ============================================================================ C12.S / C12.V
+def derived_serialization_complete(facts, rep):
+    rep.rule("C12.S", "every field of every struct with a derived Serialize/Deserialize impl is written and read back: the derived "
+                      "serialize body reads each field and the derived visitor fills each field from the input (a #[serde(skip)] "
+                      "field silently resets on reload, so the reloaded context is not deeply equal)")
+    n = 0
+    for im in facts.impls:
+        if im["crate"] != "ciphercore_base" or not im["trait"] or not im["derived"]:
+            continue
+        if not im["trait"].endswith("::Serialize"):
+            continue
+        a = facts.adts.get(im["adt"])
+        if not a or a["kind"] != "struct":
+            continue
+        fs = [x["name"] for x in a["variants"][0]["fields"]]
+        read = set()
+        for fn in im["fns"]:
+            b = facts.body(fn)
+            if b:
+                read |= {fl_ for (adt, fl_, k) in field_accesses(facts, b) if adt == im["adt"]}
+        n += 1
+        miss = [x for x in fs if x not in read]
+        rep.ob("C12.S", "serialize|%s" % im["adt"], not miss,
+               "derived Serialize writes all %d field(s)" % len(fs) if not miss else
+               "field(s) %s of %s are not serialized (#[serde(skip)]?): they come back as defaults after a reload" % (miss, im["adt"]),
+               "%s:%d" % (im["file"], im["line"]))
+    rep.floor("C12.S", "structs with a derived Serialize impl", n, 40)
+
+
+def version_gate(facts, rep):
+    rep.rule("C12.V", "the envelope version is compared for equality and the payload is decoded only when it matches")
+    b = facts.body("version::VersionedData::check_version")
+    if rep.anchor("C12.V", "VersionedData::check_version", b):
+        fl = Flow(facts, b)
+        ok = False
+        for r in C.return_blocks(b):
+            for o in fl.origins([0], (r, None)):
+                if o[0] == "bin":
+                    rv = b.stmts(o[1])[o[2]][2]
+                    if rv[1] == "Eq":
+                        da = fl.origins(rv[2], (o[1], o[2])) | fl.origins(rv[3], (o[1], o[2]))
+                        ok = any(x[0] == "param" and x[1] == 1 and x[2] == ("version",) for x in da) and \
+                            any(x[0] == "param" and x[1] == 2 for x in da)
+        rep.ob("C12.V", "check_version|equality", ok,
+               "check_version returns `self.version == required`" if ok else
+               "check_version is not an equality test of the stored version against the required one: envelopes of another "
+               "version are decoded with this version's schema", b.loc())
+    for n, b in facts.bodies.items():
+        if n.endswith("::deserialize") and ("graphs::Context as" in n or "data_values::Value as" in n):
+            cv = [bb for bb, t in b.calls() if callee_name(t) == "version::VersionedData::check_version"]
+            dec = [bb for bb, t in b.calls() if "serde_json" in (callee_name(t) or "") and "from_str" in (callee_name(t) or "")]
+            if not (rep.anchor("C12.V", "%s|check_version call" % n, cv) and rep.anchor("C12.V", "%s|payload decode" % n, dec)):
+                continue
+            res = V.executable_under(facts, b, site_values={(b.id, c): ("b", False) for c in cv})
+            live = [d for d in dec if d in res.blocks]
+            arg = b.term(cv[0])["args"][1]
+            rep.ob("C12.V", "%s|gated" % n.split(" as ")[0].lstrip("<"), not live and arg[0] == "k" and "DATA_VERSION" in arg[2],
+                   "the payload is decoded only if check_version(DATA_VERSION) holds", b.loc(cv[0]))
+
+
+_run_pi = run
+
+
+def run(facts, rep, tier):
+    _run_pi(facts, rep, tier)
+    derived_serialization_complete(facts, rep)
+    version_gate(facts, rep)
